@@ -343,7 +343,7 @@ def _underlying(cat, name):
     return []
 
 
-def _cleanup(prog, cg, eff, chk, K2):
+def _cleanup(prog, cg, eff, chk, K2, all_fk_relations=False):
     order = rowrules.enum_order(prog)
     cats = rowrules.version_catalogs(prog)
     from . import c13
@@ -364,6 +364,48 @@ def _cleanup(prog, cg, eff, chk, K2):
         (V2 + 'database_impl::remove_track', 'track', ['playlistentity'], 2),
         (V2 + 'database_impl::remove_crate', 'playlist', ['playlistentity', 'playlist'], 2),
     ]
+    if all_fk_relations:
+        # every table that declares a foreign key to the deleted table, in any supported version of the
+        # generation (PRAGMA foreign_key_check reports each row left behind)
+        # ... restricted to tables the library ever fills (its own INSERT / REPLACE statements or the
+        # INSERTs of the DDL triggers): rows only foreign software writes are outside the histories
+        # the property quantifies over
+        written = set()
+        for f_ in prog.functions.values():
+            if f_.body is None or f_.is_pattern or '/schema/' in (f_.file or ''):
+                continue
+            for s_ in eff.sites(f_):
+                st_ = s_.stored_in
+                if st_ is not None and st_.kind == 'insert' and st_.table:
+                    written.add(st_.table.lower())
+        for en in order:
+            if en not in supported:
+                continue
+            for c in cats[en].values():
+                for t_ in c.triggers.values():
+                    for b_ in (t_.body or []):
+                        if b_.kind == 'insert' and b_.table:
+                            written.add(b_.table.lower())
+        ops2 = []
+        for qn, deleted, relations, gen in ops:
+            rels = list(relations)
+            for en in order:
+                if en not in supported or (rowrules._gen2(en) != (gen == 2)):
+                    continue
+                for c in cats[en].values():
+                    d_tabs = _underlying(c, deleted) + [deleted] if (deleted in c.tables or deleted in c.views) else [deleted]
+                    for tn, td in c.tables.items():
+                        refs = [fk[1] for fk in td.fks] + [col.references[0] for col in td.columns if col.references]
+                        if any((r or '').lower() in d_tabs for r in refs) and tn not in rels and tn not in d_tabs \
+                                and tn in written:
+                            # not the table underneath a relation (view) that is already listed
+                            under = set()
+                            for r0 in rels:
+                                under |= set(_underlying(c, r0)) if (r0 in c.views) else set()
+                            if tn not in under:
+                                rels.append(tn)
+            ops2.append((qn, deleted, rels, gen))
+        ops = ops2
     for qn, deleted, relations, gen in ops:
         for f, ip, ret in evaluate(prog, cg, eff, qn):
             chk.analysed(f)
@@ -388,8 +430,16 @@ def _cleanup(prog, cg, eff, chk, K2):
                     if rel in explicit and rel != deleted:
                         how.add('explicit DELETE')
                         continue
+                    if all_fk_relations and not any(rel in c.tables or rel in c.views for c in allc.values()):
+                        continue
                     d_tabs = _underlying(cat, deleted)
                     r_tabs = _underlying(cat, rel)
+                    if all_fk_relations and rel not in cat.tables and rel not in cat.views:
+                        # the relation lives in the other attached file: look its definition up there
+                        for c2 in allc.values():
+                            if rel in c2.tables:
+                                r_tabs = [rel]
+                                cat_r = c2
                     cleaned = False
                     # trigger on the deleted table (or its underlying table) that deletes from the relation
                     for t in cat.triggers.values():
